@@ -589,6 +589,64 @@ def state_stored(ctx, rule='C08.6'):
                construct='%s.set_state forwards' % cls.name)
 
 
+def _blacklist_flags(ctx):
+    """C08.3: the flag the guards read is the verdict of the whole current
+    list: every store of <instance>.blacklisted outside the constructor is
+    the result of _is_blacklisted(<its name>), and the handler of a
+    blacklist event recomputes the flag of every instance, unconditionally
+    (a flag derived from the entries that changed goes wrong when entries
+    overlap)."""
+    index = ctx.index
+    count = 0
+    for mod in (index.module(K.SCHED), index.module(K.LOADER),
+                index.module(K.MASTER)):
+        for func in mod.live_functions():
+            for sub in K.walk_no_nested(func.node):
+                if not isinstance(sub, ast.Assign):
+                    continue
+                for tgt in sub.targets:
+                    if not (isinstance(tgt, ast.Attribute) and
+                            tgt.attr == 'blacklisted'):
+                        continue
+                    count += 1
+                    val = K.rexpr(func, sub.value)
+                    init = func.name == '__init__' and isinstance(
+                        sub.value, ast.Constant) and sub.value.value is False
+                    verdict = isinstance(val, ast.Call) and K.is_meth(
+                        val, '_is_blacklisted')
+                    ctx.ob('C08.3', func, sub, init or verdict,
+                           'the blacklist flag of an instance is the verdict '
+                           'of _is_blacklisted on its name (%s)'
+                           % N.txt(sub.value),
+                           construct='blacklist flag source')
+    ctx.require(count >= 2, 'stores of the blacklist flag', rule='C08.3')
+    master = index.get_class(K.MASTER, 'Master')
+    func = master.methods.get('_handle_apps_blacklist_event')
+    ctx.require(func is not None, 'Master._handle_apps_blacklist_event',
+                rule='C08.3')
+    graph = ctx.cfg(func)
+    stores = [n for n in graph.nodes if any(
+        N.txt(t).endswith('.blacklisted') for t, _v, _k in K.assigns_attr(n))]
+    ctx.require(stores, 'store of the blacklist flag in the event handler',
+                rule='C08.3', func=func)
+    for node in stores:
+        loop = K.enclosing_for(graph, node)
+        dom = K.rtxt(func, loop.ast.iter) if loop is not None else ''
+        skip = K.find_path(loop, [loop], cut_node=lambda n, nd=node: n is nd,
+                           cut_edge=lambda e, lp=loop: e.src is lp and
+                           e.kind == 'done', follow_exc=False) \
+            if loop is not None else []
+        ctx.ob('C08.3', func, node,
+               loop is not None and 'self.cell.apps' in dom and skip is None,
+               'a blacklist event recomputes the flag of every instance of '
+               'the cell (%s)' % dom,
+               path=K.describe(skip) if skip else None,
+               construct='every flag recomputed')
+        if loop is not None:
+            K.exhaustive_loop(ctx, 'C08.3', func, loop,
+                              'recomputation of the blacklist flags')
+
+
 def _leaf_ignores_state(ctx):
     """C08.2: a placement kept on a down or frozen server (within the
     retention window, or frozen without the unschedule mark) is put back by
@@ -619,6 +677,7 @@ def _leaf_ignores_state(ctx):
 def _bookkeeping(ctx):
     state_stored(ctx)
     _leaf_ignores_state(ctx)
+    _blacklist_flags(ctx)
     index = ctx.index
     nz = N.Normaliser()
     node_cls = index.get_class(K.SCHED, 'Node')
@@ -630,15 +689,46 @@ def _bookkeeping(ctx):
     for node in graph.nodes:
         for tgt, val, _k in K.assigns_attr(node):
             if N.txt(tgt) == 'self._state_since':
-                ok = any((f.key[0] == 'is' and not f.key[3] or
-                          f.key[0] == 'cmp' and f.key[1] == '!=') and
-                         'self._state' in f.mentions and st in f.mentions
-                         for f in facts[node]) and N.txt(val) == si
+                def changed(f):
+                    # exactly "the stored state is not the requested one"
+                    if f.key[0] == 'is' and not f.key[3]:
+                        return sorted(f.key[1:3]) == sorted(
+                            ['self._state', st])
+                    if f.key[0] == 'cmp' and f.key[1] == '!=':
+                        return sorted(t for t, _c in f.key[2]) == sorted(
+                            ['self._state', st])
+                    return False
+                ok = any(changed(f) for f in facts[node]) and \
+                    N.txt(val) == si
                 ctx.ob('C08.6', func, node, ok,
                        'since is reset only when the state changes')
             if N.txt(tgt) == 'self._state':
                 ctx.ob('C08.6', func, node, N.txt(val) == st,
                        'state takes the requested value')
+    # ... and on every change: down since / frozen since are the times the
+    # retention clock and the record of the server start from
+    nzs = N.Normaliser()
+    since_stores = [n for n in graph.nodes if any(
+        N.txt(t) == 'self._state_since' for t, _v, _k in K.assigns_attr(n))]
+
+    def unchanged(edge):
+        for a in nzs.facts_of_edge(edge):
+            if a.key[0] == 'is' and a.key[3] and sorted(a.key[1:3]) == \
+                    sorted(['self._state', st]):
+                return True
+            if a.key[0] == 'cmp' and a.key[1] == '==' and sorted(
+                    t for t, _c in a.key[2]) == sorted(['self._state', st]):
+                return True
+        return False
+    skip = K.find_path(graph.entry, [graph.exit],
+                       cut_node=lambda n: n in since_stores,
+                       cut_edge=unchanged, follow_exc=False)
+    ctx.ob('C08.6', func, since_stores[0] if since_stores else None,
+           bool(since_stores) and skip is None,
+           'every change of the state takes the new since (down since and '
+           'frozen since are different times)',
+           path=K.describe(skip) if skip else None,
+           construct='since follows every state change')
     # OWNER: the (state, since) pair is written by Node.set_state alone
     # (and the constructor) - an override or a helper that stores `since`
     # on its own restarts the retention clock without a state change
